@@ -83,6 +83,18 @@ Theorem C10_periodic_update_format : forall modify period c data remote ds,
           ds (periodic_updates modify period (periodic_start c data remote) ds).
 Proof. exact periodic_update_format. Qed.
 
+(* re-entrant callbacks (callbacks that subscribe / unsubscribe / add / remove nodes while a frame is
+   being dispatched): the callbacks invoked for a frame are exactly the list of its id when the frame
+   arrived, once each, in order, with the frame's arguments - independent of what the callbacks do
+   (the same deliveries as without scripts); and a history without scripts is a plain history *)
+Theorem C10_reentrant_dispatch_snapshot : forall scripts c data ts s,
+  snd (notify_re scripts c data ts s) = Ok (snd (notify c data ts s)) /\
+  snd (notify c data ts s) = map (fun h => (h, c, data, ts)) (abs (subs s) c).
+Proof. exact reentrant_dispatch_snapshot. Qed.
+
+Theorem C10_reentrant_no_scripts : forall ops s, run_ops_re [] ops s = run_ops ops s.
+Proof. exact run_ops_re_nil. Qed.
+
 Theorem C10_listener_filters : forall (f : frame) (s : net),
   (f_err f = true \/ f_remote f = true -> listener f s = (s, [])) /\
   (f_err f = false -> f_remote f = false -> listener f s = notify (f_id f) (f_data f) (f_ts f) s).
@@ -172,6 +184,15 @@ Example C10_nv_periodic_update :
   = [(false, [4; 5; 6; 7], 4, 2%nat); (false, [4; 5; 6; 7], 4, 0%nat)].
 Proof. vm_compute. reflexivity. Qed.
 
+(* a one-shot callback (u0 unsubscribes itself when invoked) between two others: all three get the
+   first frame, the other two the second *)
+Example C10_nv_reentrant :
+  map log_of (snd (run_ops_re [(0, OUnsub 291 (Some (HUser 0)))]
+                     [OSub 291 0; OSub 291 1; OSub 291 2; ONotify 291 [1] 1; ONotify 291 [2] 2] init_net))
+  = [[]; []; []; [(HUser 0, 291, [1], 1); (HUser 1, 291, [1], 1); (HUser 2, 291, [1], 1)];
+     [(HUser 1, 291, [2], 2); (HUser 2, 291, [2], 2)]].
+Proof. vm_compute. reflexivity. Qed.
+
 Example C10_nv_scanner :
   scan [1797; 2433; 386; 1797; 128; 1539; 536872707; 1409; (-123)] = [5; 2; 1] /\
   names_node 1797 5 /\ ~ names_node 2433 1.
@@ -205,6 +226,8 @@ Print Assumptions C10_unregistered_not_subscribed.
 Print Assumptions C10_removed_node_silent.
 Print Assumptions C10_frame_format.
 Print Assumptions C10_periodic_update_format.
+Print Assumptions C10_reentrant_dispatch_snapshot.
+Print Assumptions C10_reentrant_no_scripts.
 Print Assumptions C10_listener_filters.
 Print Assumptions C10_scanner_spec.
 Print Assumptions C10_scanner_is_reference.
